@@ -59,7 +59,7 @@ Calls(s) ==
     \cup (IF KDelEdge \in Kinds THEN {<<KDelEdge, u, v, 0, 0>> : u \in Node, v \in Node} ELSE {})
     \cup (IF KDelNode \in Kinds THEN {<<KDelNode, n, 0, 0, 0>> : n \in Node} ELSE {})
     \cup (IF KSwap \in Kinds THEN {<<KSwap, a, b, 0, 0>> : a \in Node, b \in Node} ELSE {})
-    \cup (IF KSetAttr \in Kinds THEN {<<KSetAttr, n, k, 1, 0>> : n \in Node, k \in 1..(IF HasSeg THEN 8 ELSE 4)} ELSE {})
+    \cup (IF KSetAttr \in Kinds THEN {<<KSetAttr, n, k, 1, 0>> : n \in Node, k \in (1..(IF HasSeg THEN 8 ELSE 4)) \cup {9, 10}} ELSE {})
     \cup (IF KPaint \in Kinds /\ HasSeg
             THEN \* track id and force only matter when the stroke creates a node
                  {<<KPaint, t, b, v, 2 * i + f>> : t \in Times, b \in StrokeSet,
